@@ -69,6 +69,8 @@ class CopyPropagate_apply_with_status(Contract):
         du = func.def_use
         return {
             'du': same_obj(def_use, du),
+            # only definitions of the requested names ...
+            'names': forall_keys('Definition', lambda k: implies(k in prop, name_selected(names, k))),
             # only plain copies `x = y` enter the substitution ...
             'plain_copy': forall_keys('Definition', lambda k: implies(k in prop, plain_copy(k))),
             # ... mapped to their own right-hand side
